@@ -22,8 +22,8 @@ def histories(ck):
         if rng.random() < 0.3:
             h2.append(rng.choice(rejected))
         h2.append(t)
-    out1 = ck.rt_batch(["run " + hexs(t) for t in order1], binary="inproc", harness="inproc")
-    out2 = ck.rt_batch(["run " + hexs(t) for t in h2], binary="inproc", harness="inproc")
+    out1 = ck.rt_batch(["runq " + hexs(t) for t in order1], binary="inproc", harness="inproc")
+    out2 = ck.rt_batch(["runq " + hexs(t) for t in h2], binary="inproc", harness="inproc")
     by_text = {}
     for t, o in zip(h2, out2):
         by_text.setdefault(t, []).append(o)
